@@ -86,6 +86,8 @@ class Gen:
                 out.append(r.choice(FLOATLIKE))
             else:
                 out.append(self.label())
+            if len(out) >= 1 and r.random() < 0.12:
+                out.append(out[-1])         # the same parameter twice in a row (0.0 0.0 ...)
         return out
 
     def line(self, daughters_pool=(), defs=(), model=None, ndaughters=None, photos=None, params=None):
